@@ -265,6 +265,7 @@ class Engine:
         self.events = {}        # (frame_key, block, tag) -> dict
         self.switch_terms = {}  # (frame_key, block) -> (discr term, targets, otherwise)
         self.block_facts = {}   # (frame_key, block) -> frozenset of facts established inside that frame
+        self.len_elem = {}      # id of a len(..) term -> (element type string, crate) of the measured Vec / slice
         self.frames = {}        # frame_key -> Frame (last analysed)
         self.unsupported = []   # notes (recursion, unknown writes ...)
         self.unmodelled = {}    # external callee name -> count
@@ -571,7 +572,7 @@ class Engine:
                     preds = []
                 for p in cfg.pred[b]:
                     if p in out_states and out_states[p] is not None and b in feasible.get(p, ()):
-                        preds.append((p, out_states[p]))
+                        preds.append((p, self.refine_on_edge(frame, p, b, out_states[p])))
                 if not preds:
                     continue
                 st = self.join_states(frame, b, preds)
@@ -722,6 +723,80 @@ class Engine:
         self.note("unhandled terminator in %s: %s" % (fn.name, list(t.keys())))
         return None
 
+    # ---------------- correlation of a callee's writes with the alternative it returned ----------------
+    def _lift(self, fk, b, target_fk):
+        """block of frame target_fk in which (fk, b) lies (b itself, or the call block of the inlined chain)"""
+        n = 0
+        while fk != target_fk and n < 64:
+            fr = self.frames.get(fk)
+            if fr is None or fr.parent is None:
+                return None
+            fk, b = fr.parent.key, fr.call_block
+            n += 1
+        return b if fk == target_fk else None
+
+    def refine_on_edge(self, frame, p, b, st):
+        """On the edge p -> b of a switch over the discriminant of an enum E returned by an inlined callee, a location
+        whose value was joined at the callee's return join J is narrowed to the incoming values of those predecessors of
+        J that can follow the creation site of the alternative selected by the edge (e.g. `let x = helper(&mut cur)?`:
+        on the Some edge `cur` is the value the helper wrote on its Some path).  Sound: only incoming values of
+        paths that cannot produce the selected alternative are dropped."""
+        sw = self.switch_terms.get((frame.key, p))
+        if sw is None:
+            return st
+        d, targets, otherwise = sw
+        if not (d.op == "discr" and d.args[0].op == "enum"):
+            return st
+        E = d.args[0]
+        vals = {int(v) for v, tb in targets if tb == b}
+        if b == otherwise:
+            vals |= {a[0] for a in E.args[1]} - {int(v) for v, _ in targets}
+        sel = [a for a in E.args[1] if a[0] in vals]
+        rest = [a for a in E.args[1] if a[0] not in vals]
+        if not sel or not rest or any(not a[4] for a in sel):
+            return st
+        out = None
+        for loc, v in st.items():
+            tgt = v.args[0] if v.op == "refv" else v
+            if tgt.op != "phi" or not isinstance(tgt.args[0], tuple) or len(tgt.args[0]) < 2:
+                continue
+            key = tgt.args[0]
+            fk, J = key[0], key[1]
+            fr = self.frames.get(fk) if isinstance(fk, str) else None
+            if fr is None or fk == frame.key or not isinstance(J, int) or J in self._loop_heads(fr):
+                continue
+            inc = PHI.get(key) or {}
+            if len(inc) < 2 or not all(isinstance(q, int) for q in inc):
+                continue
+            starts = []
+            ok = True
+            for a in sel:
+                for (fo, bo) in a[4]:
+                    bb = self._lift(fo, bo, fk)
+                    if bb is None:
+                        ok = False
+                        break
+                    starts.append(bb)
+                if not ok:
+                    break
+            if not ok or not starts:
+                continue
+            compat = set()
+            for q in inc:
+                for s0 in starts:
+                    if q == s0 or q in fr.cfg.reachable_from(s0, avoid=(J,)):
+                        compat.add(q)
+            if not compat or len(compat) == len(inc):
+                continue
+            cvals = [inc[q] for q in compat]
+            if any(c is not cvals[0] for c in cvals[1:]):
+                continue
+            nv = cvals[0] if v.op != "refv" else mk("refv", cvals[0])
+            if out is None:
+                out = dict(st)
+            out[loc] = nv
+        return out if out is not None else st
+
     def possible_discr(self, d):
         if d.op == "discr" and d.args[0].op == "enum":
             return {a[0] for a in d.args[0].args[1]}
@@ -748,7 +823,12 @@ class Engine:
             if u == "Neg":
                 return mk("neg", a)
             if u.startswith("PtrMetadata"):
-                return self.length(state, deref_value(self, state, a))
+                ln = self.length(state, deref_value(self, state, a))
+                ty = self.operand_ty(frame, r["a"])
+                m = re.match(r"^&(?:'\w+ )?(?:mut )?\[(.+)\]$", ty or "")
+                if ln.op == "len" and m:
+                    self.len_elem[ln.id] = self.subst_ty(frame, m.group(1))
+                return ln
             return mk("un_" + u, a)
         if "cast" in r:
             a = self.operand(state, frame, r["a"])
@@ -860,6 +940,35 @@ class Engine:
         return mk("len", v)
 
     # ---------------- calls ----------------
+    def size_of(self, ty, crate, _depth=0):
+        """a LOWER bound (> 0) of size_of::<ty>() in bytes, or None when unknown / possibly zero-sized"""
+        ty = ty.strip()
+        prim = {"u8": 1, "i8": 1, "bool": 1, "u16": 2, "i16": 2, "u32": 4, "i32": 4, "char": 4, "u64": 8, "i64": 8,
+                "u128": 16, "i128": 16, "usize": self.usize_bits // 8, "isize": self.usize_bits // 8}
+        if ty in prim:
+            return prim[ty]
+        if _depth > 6:
+            return None
+        m = re.match(r"^\[(.+); (\d+)\]$", ty)
+        if m:
+            s = self.size_of(m.group(1), crate, _depth + 1)
+            return s * int(m.group(2)) if s and int(m.group(2)) > 0 else None
+        if ty.startswith("&") or ty.startswith("std::boxed::Box<"):
+            return self.usize_bits // 8
+        if ty.startswith(("std::vec::Vec<", "std::string::String")):
+            return 3 * (self.usize_bits // 8)
+        for cand in (crate + "::" + ty, ty):
+            a = self.facts.adts.get(cand)
+            if a is not None and len(a.get("variants", [])) == 1 and not a.get("generics"):
+                tot = 0
+                for f in a["variants"][0]["fields"]:
+                    fs = self.size_of(f[1], a.get("crate", crate), _depth + 1)
+                    if fs is None:
+                        return None
+                    tot += fs
+                return tot or None
+        return None
+
     def subst_ty(self, frame, s):
         """apply the frame's generic substitution to a printed type string; returns (string, crate)"""
         crate = frame.fn.crate
